@@ -691,6 +691,12 @@ impl<'a, E: EndiannessRead, V: EncodingVersion> XTypesDeserializer<'a, E, V> {
             Ok(sequence)
         }
 
+        // the announced length sizes the allocations and bounds the loops below: a sequence
+        // cannot have more elements than there are bytes left in the buffer
+        if length > self.reader.buffer.len().saturating_sub(self.reader.pos) {
+            return Err(XTypesError::NotEnoughData);
+        }
+
         let element_type = member
             .descriptor
             .r#type
@@ -973,6 +979,9 @@ impl<'a, E: EndiannessRead, V: EncodingVersion> XTypesDeserializer<'a, E, V> {
             return Ok(String::new());
         }
         let num_units = length.saturating_sub(1) as usize;
+        if num_units > self.reader.buffer.len().saturating_sub(self.reader.pos) {
+            return Err(XTypesError::NotEnoughData);
+        }
         let mut units = Vec::with_capacity(num_units);
         for _ in 0..num_units {
             let unit = self.deserialize_primitive_type::<u16>()?;
